@@ -18,9 +18,16 @@ Decided (necessary conditions):
   C08.swift        sibling cross-check of every get_swift* implementation: next-guard -> positive, past-guard -> negative,
                    this-guard -> 0, same resource-name guard -> same magnitude across cultures, same guard -> same sign
                    within a culture
+  C08.datetimex    the date TIMEX of today/tomorrow/yesterday, this/next/last <weekday>, N days|weeks ago/later is the
+                   year-month-day of the value's calendar date: DateTimeFormatUtil.luis_date_from_datetime and the branches
+                   that store value + TIMEX are interpreted at year boundaries (ISO week-year != calendar year on 29-31 Dec /
+                   1-3 Jan); strftime is expanded by the host's datetime on the modelled value (numeric directives only)
+  C08.weekdaykeys  every key of the wired weekday table that spells a weekday (abbreviation/plural/accent/dotted variant of a
+                   reference name, CJK by last character) and is accepted in a this/next/last phrase resolves to that weekday
 """
 import ast
 import datetime as _dt
+import re as _re
 
 from .. import rx
 from ..core import AnalysisError
@@ -64,6 +71,7 @@ class _Raised(Exception):
 _STR_METHODS = {'strip', 'lower', 'upper', 'endswith', 'startswith', 'replace', 'lstrip', 'rstrip', 'split', 'find',
                 'isnumeric', 'isdigit', 'casefold', 'title', '__contains__', 'rfind', 'index', 'isspace', 'count'}
 _DT_METHODS = {'isoweekday', 'weekday', 'date', 'isocalendar', 'replace'}
+_STRFTIME_DIRECTIVES = set('YGmdHMSVujyf%')
 
 
 class MiniEval:
@@ -480,6 +488,18 @@ class MiniEval:
                     return getattr(base, f.attr)(*args, **kwargs)
                 except Exception as ex:
                     raise Undetermined('str.%s failed: %s' % (f.attr, ex))
+            if isinstance(base, (_dt.datetime, _dt.date)) and f.attr == 'strftime':
+                # the format is expanded by the host's own datetime.strftime on the modelled value; only the numeric,
+                # locale-independent directives are read (anything else: not interpreted, fail closed)
+                if len(args) != 1 or kwargs or not isinstance(args[0], str):
+                    raise Undetermined('strftime call shape')
+                for d in _re.findall(r'%(.?)', args[0]):
+                    if d not in _STRFTIME_DIRECTIVES:
+                        raise Undetermined('strftime directive %%%s' % d)
+                try:
+                    return base.strftime(args[0])
+                except (ValueError, OverflowError) as ex:
+                    raise _Raised(ex)
             if isinstance(base, (_dt.datetime, _dt.date)) and f.attr in _DT_METHODS:
                 try:
                     return getattr(base, f.attr)(*args, **kwargs)
@@ -1637,10 +1657,72 @@ WEEKDAY_TEMPLATES = {
 }
 
 
-def weekday_phrase_eval(idx, W, parser, fn, cfg, slot, phrase, ref, enum_vals, consts):
+# ---- every spelling of a weekday in the wired table (C08.weekdaykeys) -------------------------------------------------
+
+_CJK_LAST = {'一': 1, '二': 2, '三': 3, '四': 4, '五': 5, '六': 6, '日': 7, '天': 7}
+
+
+def _fold_spelling(s):
+    import unicodedata
+    s = unicodedata.normalize('NFD', s.lower())
+    s = ''.join(c for c in s if not unicodedata.combining(c))
+    return s.rstrip('.').strip()
+
+
+def weekday_of_spelling(cul, key, lexicon):
+    """the ISO weekday (1..7) a table key spells according to the reference lexicon, or (None, reason):
+    accent-folded, trailing dot dropped; a key is a spelling of the weekday whose reference name shares its longest common
+    prefix with the key (at least three letters, or the whole key when it is a two-letter abbreviation); a tie between
+    different weekdays decides nothing. CJK names are read by their last character."""
+    k = _fold_spelling(key)
+    if not k:
+        return None, 'empty key'
+    if any(ord(c) >= 0x2e80 for c in k):
+        n = _CJK_LAST.get(k[-1])
+        return (n, None) if n else (None, 'last character is not a weekday numeral')
+    best = {}
+    for name, n in lexicon.items():
+        f = _fold_spelling(name)
+        l = 0
+        while l < len(k) and l < len(f) and k[l] == f[l]:
+            l += 1
+        if l >= 3 or (l == len(k) and l >= 2):
+            best[n] = max(best.get(n, 0), l)
+    if not best:
+        return None, 'not an abbreviation of a reference weekday name'
+    top = max(best.values())
+    winners = sorted(n for n, l in best.items() if l == top)
+    if len(winners) != 1:
+        return None, 'abbreviates more than one weekday (%s)' % '/'.join(map(str, winners))
+    return winners[0], None
+
+
+def _row_line(idx, val, key):
+    """line of the row `key` in the resource table behind a wiring value (display only)"""
+    for m in idx.mods.values():
+        if m.path == val.path:
+            for c in ast.walk(m.tree):
+                if isinstance(c, ast.ClassDef) and c.name == val.res_cls:
+                    for st in c.body:
+                        if isinstance(st, ast.Assign) and _is_name(st.targets[0], val.name or ''):
+                            for x in ast.walk(st.value):
+                                if isinstance(x, ast.Constant) and x.value == key:
+                                    return x.lineno
+    return val.line
+
+
+_BRANCHES = {}      # parse_implicit_date FunctionDef -> implicit_branches(fn)
+_RESOLVED = {}      # (Wiring, configuration Cls, attribute) -> resolved values of self.config.<attribute>
+
+
+def weekday_phrase_eval(idx, W, parser, fn, cfg, slot, phrase, ref, enum_vals, consts, swift_of=None, full=False):
     """interpret the `match = ...(self.config.<slot>, ...)` statement and the branch it guards for one phrase:
-    the date stored as result.future_value, or None when the branch is not taken"""
-    brs = implicit_branches(fn)
+    the date stored as result.future_value, or None when the branch is not taken.
+    swift_of: callable(text) standing for self.config.get_swift_day (the culture's own method, interpreted by the caller);
+    full=True: (future_value, past_value, timex) instead of the future value alone"""
+    brs = _BRANCHES.get(fn)
+    if brs is None:
+        brs = _BRANCHES[fn] = implicit_branches(fn)       # keyed by the node itself: one walk per function per run
     if slot not in brs:
         raise AnalysisError('%s.parse_implicit_date: no branch for config.%s' % (parser.name, slot))
     ifnode = brs[slot][0]
@@ -1650,10 +1732,15 @@ def weekday_phrase_eval(idx, W, parser, fn, cfg, slot, phrase, ref, enum_vals, c
     def res(node):
         txt = ast.unparse(node)
         if txt.startswith('self.config.') and isinstance(node, ast.Attribute) and txt.count('.') == 2:
-            try:
-                vals = W.resolve(cfg, node.attr)
-            except AnalysisError as e:
-                raise Undetermined(str(e))
+            key = (W, cfg, node.attr)
+            if key not in _RESOLVED:
+                try:
+                    _RESOLVED[key] = W.resolve(cfg, node.attr)
+                except AnalysisError as e:
+                    _RESOLVED[key] = Undetermined(str(e))
+            vals = _RESOLVED[key]
+            if isinstance(vals, Undetermined):
+                raise Undetermined(str(vals))
             if len(vals) == 1:
                 return vals[0].value
         if isinstance(node, ast.Attribute) and isinstance(node.value, ast.Name):
@@ -1668,6 +1755,9 @@ def weekday_phrase_eval(idx, W, parser, fn, cfg, slot, phrase, ref, enum_vals, c
     def hook(call, args, env):
         if _callee_name(call) == 'ConditionalMatch' and len(args) == 2:
             return True, Obj(match=args[0], success=bool(args[1]))
+        if swift_of is not None and _callee_name(call) == 'get_swift_day' and len(args) == 1 and isinstance(args[0], str) \
+                and isinstance(call.func, ast.Attribute) and ast.unparse(call.func.value) == 'self.config':
+            return True, swift_of(args[0])
         return False, None
     ev.call_hook = hook
     rec = Obj()
@@ -1678,7 +1768,77 @@ def weekday_phrase_eval(idx, W, parser, fn, cfg, slot, phrase, ref, enum_vals, c
         pass
     except Undetermined as e:
         raise AnalysisError('%s.parse_implicit_date[%s] cannot be interpreted on %r: %s' % (parser.name, slot, phrase, e))
+    if full:
+        return tuple(getattr(rec, a, env.get('result.' + a)) for a in ('future_value', 'past_value', 'timex'))
     return getattr(rec, 'future_value', env.get('result.future_value'))
+
+
+# ---- the date TIMEX names the calendar day of the value (C08.datetimex) ---------------------------------------------
+
+def calendar_timex(d):
+    """independent reference: the TIMEX of a calendar day is its proleptic Gregorian year-month-day, zero padded"""
+    return '%04d-%02d-%02d' % (d.year, d.month, d.day)
+
+
+def isoyear_refs():
+    """reference datetimes around New Year for every weekday 1 January can fall on (the ISO week-numbering year differs from
+    the calendar year on 1-3 January in W52/W53 and on 29-31 December in W01), the ends of the quantified range, and
+    mid-year controls"""
+    out = []
+    for y in (2015, 2016, 2018, 2019, 2020, 2021, 2022, 2023):          # 1 January: Thu Fri Mon Tue Wed Fri(after W53) Sat Sun
+        first = _dt.datetime(y, 1, 1, 9, 30, 15)
+        for k in range(-12, 12):
+            out.append(first + _dt.timedelta(days=k))
+    out += [_dt.datetime(1950, 1, 1, 7, 0), _dt.datetime(1950, 1, 2, 7, 0), _dt.datetime(2089, 12, 31, 22, 0), _dt.datetime(2090, 12, 31, 0, 0),
+            _dt.datetime(2019, 6, 15, 9, 30), _dt.datetime(2020, 2, 29, 23, 59, 59), _dt.datetime(2016, 3, 1, 0, 0)]
+    return out
+
+
+def date_helper_cases(idx, owner, fn):
+    """interpret a datetime -> date-TIMEX helper over every day of 25 Dec .. 7 Jan 1950..2090 and the 1st/15th/last day of every
+    month of 2015-2024: [(date, got, want)] that differ, number of cases"""
+    days = []
+    for y in range(1950, 2091):
+        first = _dt.datetime(y, 1, 1, 13, 5, 9)
+        for k in range(-7, 7):
+            d = first + _dt.timedelta(days=k)
+            if 1950 <= d.year <= 2090:
+                days.append(d)
+    for y in range(2015, 2025):
+        for m in range(1, 13):
+            nxt = _dt.datetime(y + m // 12, m % 12 + 1, 1)
+            days += [_dt.datetime(y, m, 1), _dt.datetime(y, m, 15, 23, 59, 59), nxt - _dt.timedelta(days=1)]
+    bad = []
+    for d in days:
+        try:
+            got = MiniEval(idx, owner).call(fn, [d])
+        except Undetermined as e:
+            raise AnalysisError('%s.%s cannot be interpreted on %s: %s' % (owner.name if owner else '<control>', fn.name, d, e))
+        if got != calendar_timex(d):
+            bad.append((d, got, calendar_timex(d)))
+    return bad, len(days)
+
+
+def date_result_timex(idx, owner, fn, consts, mode_vals, unit, n, ref, fut):
+    """interpret get_date_result(unit, n, ref, fut, AgoLaterMode.DATE): (future_value, past_value, timex) as stored on the result"""
+    def res(node):
+        if isinstance(node, ast.Attribute) and isinstance(node.value, ast.Name):
+            if node.value.id == 'Constants' and node.attr in consts:
+                return consts[node.attr]
+            if node.value.id == 'AgoLaterMode' and node.attr in mode_vals:
+                return mode_vals[node.attr]
+        raise Undetermined('attribute %s' % ast.unparse(node)[:40])
+    ev = MiniEval(idx, owner, res)
+    rec = Obj()
+    env = {'unit_str': unit, 'num': n, 'reference': ref, 'is_future': fut, 'mode': mode_vals['DATE'], 'result': rec}
+    try:
+        ev.block(fn.body, env)
+    except _Return:
+        pass
+    except Undetermined as e:
+        raise AnalysisError('%s.%s cannot be interpreted in date mode: %s' % (owner.name if owner else '<control>', fn.name, e))
+    final = env.get('result') if isinstance(env.get('result'), Obj) else rec
+    return tuple(getattr(final, a, None) for a in ('future_value', 'past_value', 'timex'))
 
 
 REF_PERIOD = {'is_week_only': ('days', 7), 'is_weekend': ('days', 7), 'is_month_only': ('months', 1), 'is_year_only': ('years', 1)}
@@ -1820,6 +1980,12 @@ def run(chk):
     chk.rule('C08.weekdayphrase', "this/next/last <weekday> phrases, taken through each culture's configuration (regexes, prefix regexes, weekday "
              "table) and the parser branch they reach, give the weekday of the current/following/preceding ISO week (7 x 7 tabulation)",
              floor=15, control=True)
+    chk.rule('C08.weekdaykeys', "every key of the wired weekday table that spells a weekday (abbreviation, plural, accent or dotted variant "
+             "of a reference name; CJK by last character) and is accepted in a this/next/last phrase resolves to that weekday of the "
+             "current/following/preceding ISO week", floor=40, control=True)
+    chk.rule('C08.datetimex', "the date TIMEX of today/tomorrow/yesterday, this/next/last <weekday> and N days|weeks ago/later is the "
+             "year-month-day of the resolved value's calendar date (helper and branches tabulated at year boundaries, where the ISO "
+             "week-numbering year differs from the calendar year)", floor=5, control=True)
     chk.rule('C08.inprefix', "'<in> N <unit>' is emitted as a date by the in/within block for every unit of a day or longer", floor=6, control=True)
     chk.rule('C08.wiring', 'next/last/this (and ago/later) slots are wired to regexes of that kind in every culture', floor=50)
     chk.rule('C08.specialday', 'today/tomorrow/yesterday lexicon evaluates to 0/+1/-1 (+-2) through get_swift_day', floor=30, control=True)
@@ -2267,6 +2433,183 @@ def run(chk):
                    "        result.future_value = value\n        return result\n").body[0]
     cgot = weekday_phrase_eval(idx, W, parsers['english'][0], cw, dp_cfgs['english'], 'last_regex', 'last monday', week[1], enum, consts)
     chk.control('C08.weekdayphrase', isinstance(cgot, _dt.datetime) and cgot.date() != _dt.date(2019, 12, 16))
+
+    # ---- C08.weekdaykeys : every key of the wired weekday table that spells a weekday and is accepted in a this/next/last phrase
+    #      resolves to that weekday (the seven full names are C08.weekdayphrase's; this is every abbreviation / plural / variant)
+    from .c06 import origin as _origin
+    n_keys = 0
+    krefs = (week[2], week[6])
+    for cul in CULTURES:
+        cfg = dp_cfgs[cul]
+        parser = parsers[cul][0]
+        k_, pfn = idx.find_method(parser, 'parse_implicit_date')
+        dow = W.table(cfg, 'day_of_week')
+        lexicon = dict(WEEKDAYS['english']) if cul != 'english' else {}
+        lexicon.update(WEEKDAYS[cul])
+        full7 = set(list(WEEKDAYS[cul])[:7])
+        by_iso = {}
+        for nm, iso in list(WEEKDAYS[cul].items())[:7]:
+            by_iso[iso] = nm
+        for key in sorted(dow.value, key=str):
+            if not isinstance(key, str):
+                raise AnalysisError('%s: weekday table key %r is not a string' % (dow.label, key))
+            if key in full7:
+                continue
+            o = _origin(dow, key)
+            cons = '%s[%r]' % (o.label, key)
+            iso, why = weekday_of_spelling(cul, key, lexicon)
+            if iso is None:
+                chk.exempt('C08.weekdaykeys', o.path, cons, '%s: no weekday is derived for this key' % why, 'not classified')
+                continue
+            wrong, n_acc = [], 0
+            for kind in ('next', 'last', 'this'):
+                phrase = None
+                for tpl in WEEKDAY_TEMPLATES[cul][kind]:
+                    ph = tpl.format(d=key)
+                    if weekday_phrase_eval(idx, W, parser, pfn, cfg, slot_of[kind], ph, krefs[0], enum, consts) is not None:
+                        phrase = ph
+                        break
+                if phrase is None:
+                    continue
+                n_acc += 1
+                for ref in krefs:
+                    got = weekday_phrase_eval(idx, W, parser, pfn, cfg, slot_of[kind], phrase, ref, enum, consts)
+                    monday = ref - _dt.timedelta(days=ref.isoweekday() - 1)
+                    wantd = (monday + _dt.timedelta(days=iso - 1 + shift[kind])).date()
+                    if not isinstance(got, _dt.datetime) or got.date() != wantd:
+                        wrong.append('%r at %s %s -> %s %s (expected %s %s)'
+                                     % (phrase, ref.strftime('%a'), ref.date(), got.strftime('%a') if isinstance(got, _dt.datetime) else '',
+                                        got.date() if isinstance(got, _dt.datetime) else got, wantd.strftime('%a'), wantd))
+            if n_acc == 0:
+                chk.exempt('C08.weekdaykeys', o.path, cons, 'none of the reference this/next/last phrasings with this spelling reaches a weekday branch',
+                           'spells weekday %d; not accepted' % iso)
+                continue
+            n_keys += 1
+            full = by_iso.get(iso)
+            chk.judge(not wrong, 'C08.weekdaykeys', o.path, cons,
+                      '%r -> %r, a spelling of weekday %d (%s -> %r)' % (key, dow.value[key], iso, full, dow.value.get(full)),
+                      "%s: the weekday table maps %r to %r, but it is a spelling of %r, which the table maps to %r: %s"
+                      % (cul, key, dow.value[key], full, dow.value.get(full), '; '.join(wrong[:3])), _row_line(idx, o, key))
+    if n_keys < 40:
+        raise AnalysisError('C08.weekdaykeys: only %d weekday spellings of the wired tables are reachable through this/next/last phrases' % n_keys)
+    c_iso, _w = weekday_of_spelling('english', 'weds', WEEKDAYS['english'])
+    c_amb, _w = weekday_of_spelling('german', 'so.', WEEKDAYS['german'])
+    chk.control('C08.weekdaykeys', c_iso == 3 and c_amb is None and weekday_of_spelling('english', 'weekend', WEEKDAYS['english'])[0] is None
+                and weekday_of_spelling('chinese', '禮拜日', WEEKDAYS['chinese'])[0] == 7)
+
+    # ---- C08.datetimex : the date TIMEX of today/tomorrow/yesterday, <this|next|last> <weekday>, N days|weeks ago/later is the
+    #      calendar day of the value (tabulated at the year boundaries, where ISO week-year and calendar year part)
+    dfu = idx.cls(DT + 'utilities.DateTimeFormatUtil')
+    hk, hfn = idx.find_method(dfu, 'luis_date_from_datetime')
+    if hfn is not None:
+        hbad, hn = date_helper_cases(idx, hk, hfn)
+        cons = 'DateTimeFormatUtil.luis_date_from_datetime'
+        chk.judge(not hbad, 'C08.datetimex', hk.mod.path, cons,
+                  '%d interpreted days: year-month-day of the calendar date' % hn if not hbad else
+                  '%d of %d days differ; first: %s -> %r (calendar date %r)' % (len(hbad), hn, hbad[0][0].date(), hbad[0][1], hbad[0][2]),
+                  'the date TIMEX of %s is %r, its calendar date is %r (%d of %d interpreted days differ, e.g. %s); every relative date '
+                  '(today/tomorrow/yesterday, this/next/last <weekday>, N days|weeks ago/later) takes its TIMEX from this helper'
+                  % (hbad[0][0].date() if hbad else '', hbad[0][1] if hbad else '', hbad[0][2] if hbad else '', len(hbad), hn,
+                     '; '.join('%s -> %s' % (d.date(), g) for d, g, _w in hbad[1:4])), hfn.lineno)
+    else:
+        chk.observe('DateTimeFormatUtil.luis_date_from_datetime is gone: the date TIMEX is decided at the branches only')
+    trefs = isoyear_refs()
+    n_branch = 0
+    seen_impl = set()
+    for cul in CULTURES:
+        cfg = dp_cfgs[cul]
+        parser = parsers[cul][0]
+        k_, pfn = idx.find_method(parser, 'parse_implicit_date')
+        if pfn is None:
+            raise AnalysisError('anchor vanished: %s.parse_implicit_date' % parser.name)
+        if k_.qual in seen_impl:
+            continue          # the branch code is shared; the per-culture tables are C08.weekdayphrase / C08.specialday
+        brs_ = implicit_branches(pfn)
+        # special days, with the culture's own get_swift_day interpreted on the matched text
+        ks_, sfn = idx.find_method(cfg, 'get_swift_day')
+        if sfn is None:
+            raise AnalysisError('%s has no get_swift_day implementation' % cfg.name)
+        sresolver = make_resolver(idx, W, cfg)
+        memo = {}
+
+        def swift_of(text, cfg=cfg, sfn=sfn, sresolver=sresolver, memo=memo):
+            if text not in memo:
+                try:
+                    memo[text] = MiniEval(idx, cfg, sresolver).call(sfn, [text])
+                except Undetermined as e:
+                    raise AnalysisError('%s.get_swift_day cannot be interpreted on %r: %s' % (cfg.name, text, e))
+            return memo[text]
+        jobs = []
+        words = [w for w in SPECIAL_DAYS[cul]
+                 if weekday_phrase_eval(idx, W, parser, pfn, cfg, 'special_day_regex', w, trefs[0], enum, consts, swift_of, True)[0] is not None]
+        if len(words) >= 3:
+            jobs.append(('special_day_regex', words[:5], None))
+        names = list(WEEKDAYS[cul].items())[:7]
+        for kind in ('next', 'last', 'this'):
+            phs = []
+            for dname, iso in names:
+                for tpl in WEEKDAY_TEMPLATES[cul][kind]:
+                    ph = tpl.format(d=dname)
+                    if weekday_phrase_eval(idx, W, parser, pfn, cfg, slot_of[kind], ph, trefs[0], enum, consts) is not None:
+                        phs.append((ph, iso))
+                        break
+            if len(phs) >= 5:
+                jobs.append((slot_of[kind], phs, shift[kind]))
+        if len(jobs) < 4:
+            continue          # this culture's reference phrasings do not reach every branch; another culture of the same parser does
+        seen_impl.add(k_.qual)
+        for slot, phrases, sh in jobs:
+            wrong_t, wrong_v, n_c = [], [], 0
+            for item in phrases:
+                phrase = item if sh is None else item[0]
+                for ref in trefs:
+                    fv, pv, tx = weekday_phrase_eval(idx, W, parser, pfn, cfg, slot, phrase, ref, enum, consts, swift_of, True)
+                    n_c += 1
+                    if sh is None:
+                        sw = swift_of(phrase)
+                        wantd = (ref + _dt.timedelta(days=sw if isinstance(sw, int) else 0)).date()
+                    else:
+                        monday = ref - _dt.timedelta(days=ref.isoweekday() - 1)
+                        wantd = (monday + _dt.timedelta(days=item[1] - 1 + sh)).date()
+                    if not isinstance(fv, _dt.datetime) or fv.date() != wantd or pv != fv:
+                        wrong_v.append('%r at reference %s -> value %s (expected %s)' % (phrase, ref.date(), fv, wantd))
+                    elif tx != calendar_timex(fv):
+                        wrong_t.append('%r at reference %s -> TIMEX %r, value %s' % (phrase, ref.date(), tx, calendar_timex(fv)))
+            tline = next((x.lineno for x in ast.walk(brs_[slot][0]) if isinstance(x, ast.Assign) and isinstance(x.targets[0], ast.Attribute)
+                          and x.targets[0].attr == 'timex'), brs_[slot][0].lineno)
+            cons = '%s.parse_implicit_date[%s]#timex' % (k_.name, slot)
+            n_branch += 1
+            wrong = wrong_t + wrong_v
+            chk.judge(not wrong, 'C08.datetimex', k_.mod.path, cons,
+                      '%d interpreted (phrase, reference) cases: TIMEX is the calendar date of the value' % n_c if not wrong else
+                      '%d of %d differ; first: %s' % (len(wrong), n_c, wrong[0]),
+                      'the TIMEX and the resolved value name different days: %s (%d of %d interpreted cases at year boundaries differ)'
+                      % ('; '.join(wrong[:3]), len(wrong), n_c), tline)
+    if n_branch < 4:
+        raise AnalysisError('C08.datetimex: only %d implicit-date branches could be tabulated' % n_branch)
+    # N days|weeks ago / later in date mode
+    mode_cls = idx.cls(DT + 'utilities.AgoLaterMode')
+    mode_vals = {k: v.value for k, v in mode_cls.attrs.items() if isinstance(v, ast.Constant)}
+    if 'DATE' not in mode_vals or 'mode' not in _param_names(gdr):
+        raise AnalysisError('AgoLaterMode.DATE / the `mode` parameter of get_date_result is gone')
+    for L in ('D', 'W'):
+        wrong, n_c = [], 0
+        for ref in trefs:
+            for n in (1, 2, 3, 5, 52, 366, 5000):
+                for fut in (True, False):
+                    fv, pv, tx = date_result_timex(idx, al, gdr, consts, mode_vals, L, n, ref, fut)
+                    n_c += 1
+                    if not isinstance(fv, _dt.datetime) or tx != calendar_timex(fv):
+                        wrong.append('%d %s %s reference %s -> TIMEX %r, value %s' % (n, L, 'later' if fut else 'ago', ref.date(), tx,
+                                                                                    calendar_timex(fv) if isinstance(fv, _dt.datetime) else fv))
+        chk.judge(not wrong, 'C08.datetimex', upath, 'AgoLaterUtil.get_date_result[%r]#timex' % L,
+                  '%d interpreted cases: TIMEX is the calendar date of the value' % n_c if not wrong else
+                  '%d of %d differ; first: %s' % (len(wrong), n_c, wrong[0]),
+                  'the TIMEX and the resolved value name different days: %s (%d of %d interpreted cases differ)'
+                  % ('; '.join(wrong[:3]), len(wrong), n_c), gdr.lineno)
+    ctl = ast.parse("def luis_date_from_datetime(date):\n    return date.strftime('%G-%m-%d')\n").body[0]
+    cbad_, _n = date_helper_cases(idx, None, ctl)
+    chk.control('C08.datetimex', bool(cbad_) and all(d.isocalendar()[0] != d.year for d, _g, _w in cbad_))
 
     # ---- C08.inprefix
     ext = al.methods.get('extractor_duration_with_before_and_after')
